@@ -9,6 +9,8 @@ SPEC = {
     ],
     "engines": [
         {"name": "nflog", "pkg": "./nflog", "timeout_quick": 90, "search_cases": 30000},
+        # real goroutines, real time: a Merge racing a local Log of the same key; Maintenance after a failed rename
+        {"name": "nflograce", "pkg": "./nflograce", "search_cases": 30, "timeout_quick": 300},
     ],
     "rule": "random op sequences (log/merge batch 1-4/gc/query/snapshot+reload) on two real nflog.Log under synctest virtual time, "
             "5 state keys, instants on a 1 s grid so equal timestamps and expiry boundaries are frequent; a case is non-trivial when it "
